@@ -11,7 +11,15 @@ RULE = ("cases = fixed corner cases (empty systems and shapes) + per ring (Z wit
         "zeros glueing blocks, unstructured matrices; wide matrices with 35..80 columns forming a few stars with the hub "
         "column last; and `decompw`: parametric matrices with 4000..10000-row hub columns, 8..32 stars of one-entry leaf "
         "columns, too large for the nat-indexed model - there the implementation's sorted multiset of block shapes and "
-        "non-zero counts and the validity of the permutations are compared with the values the parameters determine); every case is executed in rayon pools of 1, 2 and 16 threads, "
+        "non-zero counts and the validity of the permutations are compared with the values the parameters determine; and "
+        "lopsided columns (Z and F_7, exact model route, about 20..90 rows x 3..13 columns): 1..3 long columns with 17..40 stored "
+        "rows and 1..8 random, boundary-biased gaps, each in its own band of rows, next to 2..9 short columns of 1..4 stored "
+        "rows placed around a gap g of a long column L (incl. the rows before its first / after its last stored row): "
+        "{g, succ_L g} (6 of 14), {pred_L g, g}, {g}, {g, g+2}, {g, g', succ_L g'}, {g, succ_L succ_L g}, {g, g'}, "
+        "{g, last row of L}, {row of another long column, g, succ_L g}; no row is used by two short columns, so the listed "
+        "stored row of L is the only link of the short column to the rest; with probability 1/3 two long columns share exactly "
+        "one row; columns in the given, reversed or shuffled order, optional empty column, explicit zeros as links in 1/5 of "
+        "the cases); every case is executed in rayon pools of 1, 2 and 16 threads, "
         "5 times per pool on the same pool, and all 15 results must be identical (THREADS-DIFFER otherwise); results are "
         "compared as data (CSC structure including explicit zeros, permutations, blocks). A case is non-trivial when "
         "the implementation returned a result (no panic) that stores at least one entry; distinct = distinct case lines")
